@@ -6,6 +6,7 @@
 package asmdb
 
 import (
+	"strconv"
 	"strings"
 
 	"github.com/HobbyOSs/gosk/pkg/ng_operand"
@@ -206,3 +207,40 @@ func specPlusRdForm(f InstructionForm, base string) bool {
 //@ ensures[push] len(specFormsOf("PUSH")) >= 1 && specPlusRdForm(specFormsOf("PUSH")[len(specFormsOf("PUSH"))-1], "50")
 //@ ensures[pop] len(specFormsOf("POP")) >= 1 && specPlusRdForm(specFormsOf("POP")[len(specFormsOf("POP"))-1], "58")
 //@ assigns *
+
+// The table lookup (JSON table plus matching of operand types) is outside every contract
+// (assumption A3); what the instruction handlers rely on:
+
+// SpecRowOK (assumption A3): the fields of a table row the handlers use are well-formed: at most
+// three opcode bytes, an opcode extension digit is 0..7, an immediate has 1, 2 or 4 bytes.
+func SpecRowOK(e *Encoding) bool {
+	if e == nil {
+		return true
+	}
+	if len(e.Opcode.Byte) > 6 {
+		return false
+	}
+	if e.ModRM != nil && !strings.HasPrefix(e.ModRM.Reg, "#") && specAtoiOK(e.ModRM.Reg) && (specAtoi(e.ModRM.Reg) < 0 || specAtoi(e.ModRM.Reg) > 7) {
+		return false
+	}
+	if e.Immediate != nil && e.Immediate.Size != 1 && e.Immediate.Size != 2 && e.Immediate.Size != 4 {
+		return false
+	}
+	return true
+}
+
+func specAtoi(s string) int {
+	v, _ := strconv.Atoi(s)
+	return v
+}
+
+func specAtoiOK(s string) bool {
+	_, err := strconv.Atoi(s)
+	return err == nil
+}
+
+//@ func (*InstructionDB).FindEncoding
+//@ props C01
+//@ option trusted
+//@ ensures[nonnil] result1 == nil ==> result0 != nil
+//@ ensures[A3.row] result1 == nil ==> SpecRowOK(result0)
